@@ -462,6 +462,10 @@ def targeted_cases(quick, cap):
     # --- empty xattr value from the host (F25)
     if cap["xattr"]:
         t.append(dict(name="host-xattr-empty", kind="hostx"))
+    # --- directory listing size at the basic/extended directory inode border: the basic inode stores
+    #     listing size + 3 in 16 bits (one header of 12 bytes, 8 bytes per entry, the name bytes)
+    for listing in range(65526, 65542) if quick else range(65500, 65580):
+        t.append(dict(name="dir-listing-%d" % listing, kind="dirsize", listing=listing))
     if not quick:
         # --- block list of a huge file on the stack (F23): 9 GiB hole, 4 KiB blocks
         t.append(dict(name="huge-sparse-4k", kind="hugesparse", gib=9))
@@ -629,6 +633,45 @@ def run_targeted(tc, tools_asan, tools_plain, scratch, env):
                 r = image_reads_back(tools, env, img, chk)
                 if r:
                     fail("F25:host-xattr-empty-value-dropped", "--keep-xattr loses an extended attribute whose value is empty: %s" % r)
+        elif k == "dirsize":
+            # 255 device nodes (24 byte inodes: all in one inode block, so one directory header) in the root
+            n_ent = 255
+
+            def mk_names(total):
+                base, extra = divmod(total, n_ent)
+                return [("%03d" % i) + "n" * (base + (1 if i < extra else 0) - 3) for i in range(n_ent)]
+
+            def write_pf(names):
+                open(pf, "w").write("".join("nod /%s 0600 0 0 c 1 %d\n" % (nm, i) for i, nm in enumerate(names)))
+
+            # probe just below the border (names a fraction of a byte shorter: same header structure; the size
+            # field of the inode is unproblematic there) to learn how many header bytes the writer spends,
+            # then aim at the requested listing size
+            probe_total = 65400 - 8 * n_ent - 12 * 16
+            write_pf(mk_names(probe_total))
+            rc, out, err = gens(tools, env, ["-F", pf, img])
+            overhead = None
+            if rc == 0:
+                from vlib import sqfsimg
+                im = sqfsimg.Image(open(img, "rb").read())
+                overhead = im.inode(im.super["root_ref"]).size - 3 - probe_total
+            if overhead is None or overhead < 8 * n_ent + 12:
+                raise RuntimeError("dirsize probe failed: rc=%s overhead=%r" % (rc, overhead))
+            names = mk_names(tc["listing"] - overhead)
+            write_pf(names)
+            rc, out, err = gens(tools, env, ["-F", pf, img])
+            if T.sanitizer_hit(rc, err):
+                fail("sanitizer:gensquashfs:dirsize", "gensquashfs died on a directory listing of %d bytes: %s" % (tc["listing"], err[-600:].decode("latin-1")))
+            elif rc == 0:
+                def chk(got):
+                    missing = [nm for nm in names if nm.encode() not in got]
+                    return None if not missing else "%d of %d entries missing from the root directory (first: %s...)" % (len(missing), n_ent, missing[0][:12])
+                r = image_reads_back(tools, env, img, chk)
+                if r:
+                    fail("readback:dir-listing-size:%d" % tc["listing"], "gensquashfs exits 0 for a root directory whose listing is %d bytes but it does not read back: %s" % (tc["listing"], r[:300]))
+            else:
+                res["status"] = "refused"
+                res["what"] = err[-200:].decode("latin-1")
         elif k == "hugesparse":
             pd = os.path.join(work, "pd")
             os.makedirs(pd)
